@@ -77,6 +77,9 @@ type Scenario struct {
 	ProbePM   int                  `json:"probe_permille,omitempty"`
 	ProbeMaxMS int                 `json:"probe_max_ms,omitempty"`
 	HorizonS  int                  `json:"horizon_s"`
+	// WatermarkOnConnect: a reconnecting source first repeats its acknowledged level as a
+	// watermark-only batch (Temporal's sender reports its watermark when it has nothing to send)
+	WatermarkOnConnect bool `json:"watermark_on_connect,omitempty"`
 	Window    int                  `json:"window"`
 }
 
@@ -574,6 +577,11 @@ func (c *cluster) runSource(shard int, stream string, cs *fakes.ClientSide, resu
 			return false
 		}
 	}
+	if c.w.Sc.WatermarkOnConnect && resume > 0 {
+		if !send(Batch{High: resume}) {
+			return
+		}
+	}
 	for _, b := range c.w.Sc.Scripts[src] {
 		if len(b.IDs) > 0 {
 			var keep []int64
@@ -785,4 +793,8 @@ func (w *World) breakTarget(shard string) {
 	if cancel != nil {
 		cancel()
 	}
+}
+
+func farmOwner(ns, wf string, n int) int {
+	return int(farm.Fingerprint32([]byte(ns+"_"+wf))%uint32(n)) + 1
 }
